@@ -67,7 +67,7 @@ class VerusResult:
 
 
 def _enclosing_fn(lines: List[str], line: int) -> Optional[str]:
-    pat = re.compile(r"^\s*(?:pub(?:\([^)]*\))?\s+)?(?:open\s+|closed\s+|broadcast\s+|uninterp\s+)*(?:proof\s+|spec\s+|exec\s+)?(?:const\s+)?fn\s+([A-Za-z_][A-Za-z0-9_]*)")
+    pat = re.compile(r"^\s*(?:#\[[^\]]*\]\s*)*(?:pub(?:\([^)]*\))?\s+)?(?:open\s+|closed\s+|broadcast\s+|uninterp\s+)*(?:proof\s+|spec\s+|exec\s+)?(?:const\s+)?fn\s+([A-Za-z_][A-Za-z0-9_]*)")
     for i in range(min(line, len(lines)) - 1, -1, -1):
         m = pat.match(lines[i])
         if m:
